@@ -59,6 +59,17 @@ def monitor(run):
         for cid in prev_suspending - suspending:
             if cid not in suspended:
                 yield f'tick {t}: suspending container {cid} vanished'
+        # a write-out in progress advances by one tick in every executor tick (whether or not the pool got commands)
+        prev_left = {c['cid']: c['left'] for p in prev for c in p['suspending']}
+        for p in e['pools']:
+            for c in p['suspending']:
+                if c['cid'] in prev_left and c['left'] != prev_left[c['cid']] - 1:
+                    yield (f'tick {t}: suspending container {c["cid"]} has {c["left"]} ticks left, had {prev_left[c["cid"]]} '
+                           f'before this tick: its write-out did not advance (it can never reach its outcome)')
+            for c in p['active']:
+                if c['completed']:
+                    yield (f'tick {t}: container {c["cid"]} is finished but still sits in the running list: '
+                           f'no result was delivered for it')
         for x in e['results']:
             sts = [e['states'][o] for o in x['ops']]
             if x['err'] == 0:
@@ -88,6 +99,7 @@ def run(ctx):
         ('G-exec', 250, 4000, {}),
         ('G-exec-over', 120, 2000, dict(overcommit=True)),
         ('G-exec-overlap', 40, 600, dict(overlap=True)),
+        ('G-exec-burst', 60, 1000, dict(burst=True)),
         ('G-exec-badpool', 60, 1000, dict(p_bad=1.0, bad_kinds=['asg-pool', 'susp-badpool'], bad_early=False)),
     ], nontrivial=lambda run: any(e.get('results') for e in run.trace))
     out['rule'] = ('G-exec command fuzzer (see C03) incl. simultaneous completions, kills and suspensions and commands with '
